@@ -123,4 +123,11 @@ PROPS = {
         ],
         "assumptions": ["six ownership states are generated for pre-existing objects: foreign, other release name, same name other namespace, label only, annotations only, correctly owned", "CRDs from crds/ are not generated by this sub-command (the install path creates them before the ownership check; see DESIGN.md)"],
     },
+    "C12": {
+        "corr": [("hooks", {"quick": 1200, "thorough": 30000})],
+        "trusted_base": [
+            "modelled, not verified: the hook list of a release (kinds, weights, events, policies parsed from annotations by SortManifests: C08; the model of execHook is fed with the list the implementation built, the monitors use the generator's own weights), hook readiness (WatchUntilReady is a scripted oracle), log-output policies, CustomResourceDefinition hooks (never deleted: not generated), the API server (a create of an existing object is refused)",
+        ],
+        "assumptions": ["hook object identity = kind/namespace/name; string comparison of hook names is Lean's String order (code points), which coincides with Go's byte order on UTF-8"],
+    },
 }
